@@ -56,6 +56,11 @@ impl<'l, R: Round, const B: Word> AddSpecImpl<FBig<R, B>> for &'l FBig<R, B> {
     }
     open spec fn add_spec(self, rhs: FBig<R, B>) -> FBig<R, B> { fbig_add(*self, rhs) }
 }
+/// the result is finite and normalized (`Repr::new`: zero is (0, 0); trailing zero digits are moved INTO the exponent), and
+/// the sum is a multiple of B^min(e_x, e_y): its exponent is not below the exponents of both operands.  TRUSTED with the rest.
+pub open spec fn fbig_exp_lb<R: Round, const B: Word>(x: FBig<R, B>, y: FBig<R, B>, z: FBig<R, B>) -> bool {
+    (z.repr.significand.v() == 0 && z.repr.exponent == 0) || z.repr.exponent >= x.repr.exponent || z.repr.exponent >= y.repr.exponent
+}
 /// the value clause of the two operators (see above); S, E: the witness of representability
 pub open spec fn fbig_exact_diff<R: Round, const B: Word>(x: FBig<R, B>, y: FBig<R, B>, z: FBig<R, B>, S: int, E: int) -> bool {
     fdiff(B as int, x.repr.significand.v(), x.repr.exponent as int, y.repr.significand.v(), y.repr.exponent as int, S, E)
@@ -67,6 +72,7 @@ pub proof fn ax_fbig_sub<R: Round, const B: Word>(x: FBig<R, B>, y: FBig<R, B>, 
     requires B >= 2, x.context.precision != 0, y.context.precision != 0,
     ensures fbig_sub(x, y).context.precision == umax2(x.context.precision, y.context.precision),
         !(fbig_sub(x, y).repr.significand.v() == 0 && fbig_sub(x, y).repr.exponent != 0),
+        fbig_exp_lb(x, y, fbig_sub(x, y)),
         fbig_exact_diff(x, y, fbig_sub(x, y), S, E),
 {}
 #[verifier::external_body]
@@ -74,6 +80,7 @@ pub proof fn ax_fbig_add<R: Round, const B: Word>(x: FBig<R, B>, y: FBig<R, B>, 
     requires B >= 2, x.context.precision != 0, y.context.precision != 0,
     ensures fbig_add(x, y).context.precision == umax2(x.context.precision, y.context.precision),
         !(fbig_add(x, y).repr.significand.v() == 0 && fbig_add(x, y).repr.exponent != 0),
+        fbig_exp_lb(x, y, fbig_add(x, y)),
         // x + y == S * B^E  <=>  x - (-y) == S * B^E
         fdiff(B as int, x.repr.significand.v(), x.repr.exponent as int, -y.repr.significand.v(), y.repr.exponent as int, S, E)
             && iabs(S) <= ipow(B as int, umax2(x.context.precision, y.context.precision) as nat)
